@@ -48,10 +48,21 @@ def prep_requests(kind: str, name: str):
                                                      "typesOnly": False, "filter": None, "attrs": [], "controls": []}},
                 {"op": "call", "name": name, "call": {"k": "extended", "name": t("1.2.4"), "value": "00", "controls": []}},
                 {"op": "call", "name": name, "call": {"k": "drain", "amount": None}}]
+    if kind == "client_pending":
+        # as client_mid, but only part of the queued requests has been taken by the transport: output is pending when the next input arrives
+        return prep_requests("client_mid", name)[:-1] + [{"op": "call", "name": name, "call": {"k": "drain", "amount": 5}}]
+    if kind == "server_pending":
+        # two requests received, one answered, the answer not yet taken by the transport
+        reqs = prep_requests("server_mid", name)
+        m = {"id": 2, "op": {"k": "extReq", "name": t("1.2.4"), "value": "00"}, "controls": []}
+        data = C.msg_from_json(m).pack(M.PackingOptions())
+        return reqs + [{"op": "call", "name": name, "call": {"k": "receive", "chunk": data.hex()}},
+                       {"op": "call", "name": name, "call": {"k": "extendedResponse", "id": 2, "code": 0, "mdn": t(""), "diag": t(""), "refs": None,
+                                                            "name": None, "value": None, "controls": []}}]
     raise KeyError(kind)
 
 
-PREPS = ["server_fresh", "server_mid", "server_binding", "client_fresh", "client_mid"]
+PREPS = ["server_fresh", "server_mid", "server_binding", "client_fresh", "client_mid", "client_pending", "server_pending"]
 
 
 def valid_stream(rng, prep):
@@ -66,7 +77,7 @@ def valid_stream(rng, prep):
             msgs.append({"id": nid, "op": gen.g_op(rng, kind, depth=rng.choice([1, 2, 3]), allow_custom=custom),
                          "controls": gen.g_controls(rng, allow_custom=custom) if not custom or rng.random() < 0.5 else [gen.g_control(rng, True) for _ in range(2)]})
             nid += rng.choice([1, 1, 5])
-    elif prep in ("client_mid", "client_registered"):
+    elif prep in ("client_mid", "client_registered", "client_pending"):
         # ids 1 (extended), 2 (search), 3 (extended) are outstanding
         seq = []
         for _ in range(rng.choice([0, 1, 2, 4])):
